@@ -319,7 +319,7 @@ class GeoBoxBase:
             tx, ty = map(int, pix_bbox.bbox[:2])
             roi = numpy.s_[ty : ty + ny, tx : tx + nx]
 
-        if isinstance(roi, int):
+        if isinstance(roi, (int, numpy.integer)):
             # keep it as int: slice(-1, 0) is empty, roi_normalise deals with negative indexes
             roi = (roi, slice(None, None))
 
